@@ -214,3 +214,47 @@ func vfH_c11_large() {
 	vfAssert(err == io.EOF, "clean-end-is-io.EOF")
 	vfCover("done")
 }
+
+// H11-huge: ONE value larger than the read buffer (so readValue refills and re-scans within a single call): an array
+// ["aaa...a" (vfLen2 bytes), <token>] followed by 7. The token (vfMode) contains escapes / non-ASCII / control-free
+// text that the scanner hints computed for the first buffer-full (no backslash, ASCII only) do not describe.
+func vfH_c11_huge() {
+	pad := vfLen2
+	tokens := []string{`"x\"y"`, `{"k\"":"\\"}`, `"éé"`, `"A\n"`, `[-1.5e3,"\/"]`, `"plain"`}
+	tok := tokens[vfMode]
+	var stream []byte
+	stream = append(stream, '[', '"')
+	for i := 0; i < pad; i++ {
+		stream = append(stream, 'a')
+	}
+	stream = append(stream, '"', ',')
+	stream = append(stream, tok...)
+	stream = append(stream, ']')
+	t1 := len(stream)
+	stream = append(stream, ' ', '7')
+	r := &chunkReader{data: stream, end: len(stream), sizes: [3]int{4096, 8192, 1000}, err: io.EOF}
+	dec := NewDecoder(r)
+	var v RawMessage
+	err := dec.Decode(&v)
+	vfAssert(err == nil, "huge-value-delivered")
+	if err == nil {
+		vfAssert(len(v) == t1, "huge-value-length")
+		if len(v) == t1 {
+			vfAssert(string(v[t1-1-len(tok):t1-1]) == tok, "huge-value-tail-bytes")
+		}
+	}
+	vfAssert(dec.InputOffset() >= int64(t1), "InputOffset-after-value")
+	vfAssert(dec.InputOffset() <= int64(t1+1), "InputOffset-before-next-value")
+	var x []any
+	dec2 := NewDecoder(&chunkReader{data: stream, end: len(stream), sizes: [3]int{4096, 8192, 1000}, err: io.EOF})
+	err = dec2.Decode(&x)
+	vfAssert(err == nil && len(x) == 2, "huge-value-decodes-into-a-slice")
+	err = dec.Decode(&v)
+	vfAssert(err == nil, "last-value-delivered")
+	if err == nil {
+		vfAssert(string(v) == "7", "last-value-bytes")
+	}
+	err = dec.Decode(&v)
+	vfAssert(err == io.EOF, "clean-end-is-io.EOF")
+	vfCover("done")
+}
